@@ -132,7 +132,8 @@ structure W (s : Srv) : Prop where
   idk : ∀ sid x, lookup s.sessions sid = some x → x.id = sid
   ok : Spec.C04.Inv s
   nda : NodupKeys s.alloc
-  ipa : ∀ sid x, lookup s.sessions sid = some x → x.ip.isSome = (lookup s.alloc x.serial).isSome
+  ipa : ∀ sid x, lookup s.sessions sid = some x → x.ip = lookup s.alloc x.serial
+  pnd : (s.avail ++ vals s.alloc).Nodup
   ser : ∀ sid x, lookup s.sessions sid = some x → x.serial < s.serialCtr
   inj : ∀ sid sid' x x', lookup s.sessions sid = some x → lookup s.sessions sid' = some x' →
           x.serial = x'.serial → sid = sid'
@@ -284,7 +285,43 @@ theorem finish {s' : Srv} {mn : Mon} {i : In} {outs : List Out}
     · simp at hv'
 
 
+theorem inj_of_nodup_map {α β : Type} (f : α → β) : ∀ {l : List α}, (l.map f).Nodup →
+    ∀ {a b : α}, a ∈ l → b ∈ l → f a = f b → a = b
+  | [], _, _, _, ha, _, _ => by simp at ha
+  | c :: rest, h, a, b, ha, hb, e => by
+    simp only [List.map_cons, List.nodup_cons, List.mem_map, not_exists, not_and] at h
+    rcases List.mem_cons.mp ha with rfl | ha' <;> rcases List.mem_cons.mp hb with rfl | hb'
+    · rfl
+    · exact absurd e.symm (h.1 b hb')
+    · exact absurd e (h.1 a ha')
+    · exact inj_of_nodup_map f h.2 ha' hb' e
+
 /-! ### the pool operations -/
+
+theorem vals_erase_perm {m : AMap Nat Nat} (hn : NodupKeys m) {k a : Nat} (h : lookup m k = some a) :
+    (vals m).Perm (a :: vals (erase m k)) := by
+  induction m with
+  | nil => simp at h
+  | cons p rest ih =>
+    obtain ⟨c, b⟩ := p
+    have hn' : NodupKeys rest := by
+      unfold NodupKeys keys at hn ⊢; simp at hn; exact hn.2
+    have hnot : c ∉ keys rest := by
+      unfold NodupKeys keys at hn; simp at hn
+      intro hm; simp [keys] at hm; obtain ⟨y, hy⟩ := hm; exact hn.1 y hy
+    rw [lookup_cons] at h
+    by_cases e : c = k
+    · subst e
+      simp only [if_true, Option.some.injEq] at h
+      subst h
+      have h1 : erase ((c, b) :: rest) c = erase rest c := by simp [erase_cons]
+      rw [h1, erase_eq_self_of_not_mem hnot]
+      exact List.Perm.refl _
+    · simp only [e, if_false] at h
+      have h1 : erase ((c, b) :: rest) k = (c, b) :: erase rest k := by simp [erase_cons, e]
+      rw [h1]
+      simp only [vals, List.map_cons]
+      exact ((ih hn' h).cons b).trans (List.Perm.swap a b _)
 
 theorem release_facts (s : Srv) (hn : NodupKeys s.alloc) (k : Nat) :
     (poolRelease s k).sessions = s.sessions ∧ (poolRelease s k).radius = s.radius ∧
@@ -292,18 +329,23 @@ theorem release_facts (s : Srv) (hn : NodupKeys s.alloc) (k : Nat) :
     NodupKeys (poolRelease s k).alloc ∧
     (∀ k', lookup (poolRelease s k).alloc k' = if k' = k then none else lookup s.alloc k') ∧
     (poolRelease s k).avail.length + (poolRelease s k).alloc.length = s.avail.length + s.alloc.length ∧
-    (poolRelease s k).alloc.length + (if (lookup s.alloc k).isSome then 1 else 0) = s.alloc.length := by
+    (poolRelease s k).alloc.length + (if (lookup s.alloc k).isSome then 1 else 0) = s.alloc.length ∧
+    ((poolRelease s k).avail ++ vals (poolRelease s k).alloc).Perm (s.avail ++ vals s.alloc) := by
   unfold poolRelease
   cases h : lookup s.alloc k with
   | none =>
-    refine ⟨rfl, rfl, rfl, rfl, hn, ?_, rfl, by simp⟩
+    refine ⟨rfl, rfl, rfl, rfl, hn, ?_, rfl, by simp, List.Perm.refl _⟩
     intro k'
     by_cases e : k' = k
     · subst e; simp [h]
     · simp [e]
   | some a =>
     have hl := length_erase_of_lookup hn h
-    refine ⟨rfl, rfl, rfl, rfl, nodupKeys_erase hn k, ?_, ?_, ?_⟩
+    refine ⟨rfl, rfl, rfl, rfl, nodupKeys_erase hn k, ?_, ?_, ?_, ?_⟩
+    rotate_left 3
+    · show ((s.avail ++ [a]) ++ vals (erase s.alloc k)).Perm (s.avail ++ vals s.alloc)
+      rw [List.append_assoc]
+      exact ((vals_erase_perm hn h).symm).append_left s.avail
     · intro k'
       show lookup (erase s.alloc k) k' = _
       rw [lookup_erase]
@@ -318,22 +360,29 @@ theorem allocate_facts (s : Srv) (hn : NodupKeys s.alloc) (k : Nat) :
     (poolAllocate s k).1.sessions = s.sessions ∧ (poolAllocate s k).1.radius = s.radius ∧
     (poolAllocate s k).1.serialCtr = s.serialCtr ∧ (poolAllocate s k).1.nextID = s.nextID ∧
     NodupKeys (poolAllocate s k).1.alloc ∧
-    (poolAllocate s k).2.isSome = (lookup (poolAllocate s k).1.alloc k).isSome ∧
+    (poolAllocate s k).2 = lookup (poolAllocate s k).1.alloc k ∧
     (∀ k', k' ≠ k → lookup (poolAllocate s k).1.alloc k' = lookup s.alloc k') ∧
     (poolAllocate s k).1.avail.length + (poolAllocate s k).1.alloc.length = s.avail.length + s.alloc.length ∧
     (poolAllocate s k).1.alloc.length + (if (lookup s.alloc k).isSome then 1 else 0)
-      = s.alloc.length + (if (poolAllocate s k).2.isSome then 1 else 0) := by
+      = s.alloc.length + (if (poolAllocate s k).2.isSome then 1 else 0) ∧
+    ((poolAllocate s k).1.avail ++ vals (poolAllocate s k).1.alloc).Perm (s.avail ++ vals s.alloc) := by
   unfold poolAllocate
   cases h : lookup s.alloc k with
   | some a =>
-    refine ⟨rfl, rfl, rfl, rfl, hn, by simp [h], fun _ _ => rfl, rfl, by simp⟩
+    refine ⟨rfl, rfl, rfl, rfl, hn, by simp [h], fun _ _ => rfl, rfl, by simp, List.Perm.refl _⟩
   | none =>
     cases hv : s.avail with
     | nil =>
-      refine ⟨rfl, rfl, rfl, rfl, hn, by simp [h], fun _ _ => rfl, by simp [hv], by simp⟩
+      refine ⟨rfl, rfl, rfl, rfl, hn, by simp [h], fun _ _ => rfl, by simp [hv], by simp, by simp [hv]⟩
     | cons a rest =>
-      refine ⟨rfl, rfl, rfl, rfl, nodupKeys_insert hn k a, ?_, ?_, ?_, ?_⟩
-      · show (some a).isSome = (lookup (AMap.insert s.alloc k a) k).isSome
+      refine ⟨rfl, rfl, rfl, rfl, nodupKeys_insert hn k a, ?_, ?_, ?_, ?_, ?_⟩
+      rotate_left 4
+      · show (rest ++ vals (AMap.insert s.alloc k a)).Perm (a :: rest ++ vals s.alloc)
+        unfold AMap.insert
+        rw [erase_eq_self_of_not_mem (lookup_eq_none_iff.mp h)]
+        simp only [vals, List.map_cons, List.cons_append]
+        exact List.perm_middle
+      · show some a = lookup (AMap.insert s.alloc k a) k
         rw [lookup_insert]; simp
       · intro k' hk'
         show lookup (AMap.insert s.alloc k a) k' = _
@@ -354,7 +403,8 @@ theorem W_update {s : Srv} (hW : W s) {sid : Nat} {x y : Sess} (hx : lookup s.se
     (hother : ∀ k', k' ≠ x.serial → lookup s1.alloc k' = lookup s.alloc k')
     (hbnd : ∀ k a, lookup s1.alloc k = some a → k < s1.serialCtr)
     (hid : y.id = x.id) (hser : y.serial = x.serial)
-    (hip : y.ip.isSome = (lookup s1.alloc x.serial).isSome)
+    (hip : y.ip = lookup s1.alloc x.serial)
+    (hpnd : (s1.avail ++ vals s1.alloc).Nodup)
     (hok : Spec.C04.Inv (setSess s1 sid y)) : W (setSess s1 sid y) := by
   have look : ∀ k z, lookup (setSess s1 sid y).sessions k = some z →
       (k = sid ∧ z = y) ∨ (k ≠ sid ∧ lookup s.sessions k = some z) := by
@@ -366,14 +416,14 @@ theorem W_update {s : Srv} (hW : W s) {sid : Nat} {x y : Sess} (hx : lookup s.se
       exact Or.inl ⟨e, h.symm⟩
     · rename_i e
       exact Or.inr ⟨e, h⟩
-  refine ⟨?_, ?_, hok, hnda, ?_, ?_, ?_, hbnd, by simpa [setSess, hnx] using hW.nx⟩
+  refine ⟨?_, ?_, hok, hnda, ?_, hpnd, ?_, ?_, hbnd, by simpa [setSess, hnx] using hW.nx⟩
   · simp only [setSess, hs]; exact nodupKeys_insert hW.nd sid y
   · intro k z h
     rcases look k z h with ⟨rfl, rfl⟩ | ⟨_, h'⟩
     · rw [hid]; exact hW.idk _ x hx
     · exact hW.idk k z h'
   · intro k z h
-    show z.ip.isSome = (lookup s1.alloc z.serial).isSome
+    show z.ip = lookup s1.alloc z.serial
     rcases look k z h with ⟨rfl, rfl⟩ | ⟨hne, h'⟩
     · rw [hser]; exact hip
     · have : z.serial ≠ x.serial := fun e => hne (hW.inj k sid z x h' hx e)
@@ -396,6 +446,7 @@ theorem W_remove {s : Srv} (hW : W s) {sid : Nat} {x : Sess} (hx : lookup s.sess
     (hnda : NodupKeys s1.alloc)
     (hother : ∀ k', k' ≠ x.serial → lookup s1.alloc k' = lookup s.alloc k')
     (hbnd : ∀ k a, lookup s1.alloc k = some a → k < s1.serialCtr)
+    (hpnd : (s1.avail ++ vals s1.alloc).Nodup)
     (hok : Spec.C04.Inv { s1 with sessions := AMap.erase s1.sessions sid }) :
     W { s1 with sessions := AMap.erase s1.sessions sid } := by
   have look : ∀ k z, lookup (AMap.erase s1.sessions sid) k = some z → k ≠ sid ∧ lookup s.sessions k = some z := by
@@ -404,13 +455,13 @@ theorem W_remove {s : Srv} (hW : W s) {sid : Nat} {x : Sess} (hx : lookup s.sess
     split at h
     · simp at h
     · rename_i e; exact ⟨e, h⟩
-  refine ⟨?_, ?_, hok, hnda, ?_, ?_, ?_, hbnd, by simpa [hnx] using hW.nx⟩
+  refine ⟨?_, ?_, hok, hnda, ?_, hpnd, ?_, ?_, hbnd, by simpa [hnx] using hW.nx⟩
   · show NodupKeys (AMap.erase s1.sessions sid)
     rw [hs]; exact nodupKeys_erase hW.nd sid
   · intro k z h; exact hW.idk k z (look k z h).2
   · intro k z h
     obtain ⟨hne, h'⟩ := look k z h
-    show z.ip.isSome = (lookup s1.alloc z.serial).isSome
+    show z.ip = lookup s1.alloc z.serial
     have : z.serial ≠ x.serial := fun e => hne (hW.inj k sid z x h' hx e)
     rw [hother _ this]; exact hW.ipa k z h'
   · intro k z h
@@ -542,8 +593,10 @@ theorem remove_core {s s1 : Srv} {mn : Mon} {i : In} {sid : Nat} {x : Sess} {out
     (hlook : ∀ k', lookup s1.alloc k' = if k' = x.serial then none else lookup s.alloc k')
     (hcons : s1.avail.length + s1.alloc.length = s.avail.length + s.alloc.length)
     (hlen : s1.alloc.length + (if (lookup s.alloc x.serial).isSome then 1 else 0) = s.alloc.length)
+    (hperm : (s1.avail ++ vals s1.alloc).Perm (s.avail ++ vals s.alloc))
     (hns : sweptNow mn i = 0)
     (hnp : ∀ t ∈ outs.filterMap toSent, t.pads = false ∧ t.ipcpAns = false) : StepOK s mn i := by
+  have hpnd := hperm.symm.nodup hW.pnd
   have hother : ∀ k', k' ≠ x.serial → lookup s1.alloc k' = lookup s.alloc k' := by
     intro k' hk; rw [hlook, if_neg hk]
   have hbnd : ∀ k a, lookup s1.alloc k = some a → k < s1.serialCtr := by
@@ -552,7 +605,7 @@ theorem remove_core {s s1 : Srv} {mn : Mon} {i : In} {sid : Nat} {x : Sess} {out
     split at h
     · simp at h
     · rw [hc]; exact hW.bnd k a h
-  have hW' := W_remove hW hx s1 hs hc hnx hnda hother hbnd (inv_of_step hW hstep)
+  have hW' := W_remove hW hx s1 hs hc hnx hnda hother hbnd hpnd (inv_of_step hW hstep)
   have look : ∀ k z, lookup (AMap.erase s1.sessions sid) k = some z → k ≠ sid ∧ lookup s.sessions k = some z := by
     intro k z h
     rw [hs, lookup_erase] at h
@@ -594,8 +647,9 @@ theorem update_core {s s1 : Srv} {mn : Mon} {i : In} {sid : Nat} {x y : Sess} {o
     (hother : ∀ k', k' ≠ x.serial → lookup s1.alloc k' = lookup s.alloc k')
     (hcons : s1.avail.length + s1.alloc.length = s.avail.length + s.alloc.length)
     (hlen : s1.alloc.length + (if x.ip.isSome then 1 else 0) = s.alloc.length + (if y.ip.isSome then 1 else 0))
+    (hperm : (s1.avail ++ vals s1.alloc).Perm (s.avail ++ vals s.alloc))
     (hid : y.id = x.id) (hmac : y.mac = x.mac) (hser : y.serial = x.serial)
-    (hip : y.ip.isSome = (lookup s1.alloc x.serial).isSome)
+    (hip : y.ip = lookup s1.alloc x.serial)
     (hauth : y.everAuthed = true → sid ∈ auth1 mn i (obsOf (setSess s1 sid y) outs))
     (hns : sweptNow mn i = 0)
     (hnp : ∀ t ∈ outs.filterMap toSent, t.pads = false ∧ t.ipcpAns = false) : StepOK s mn i := by
@@ -605,7 +659,7 @@ theorem update_core {s s1 : Srv} {mn : Mon} {i : In} {sid : Nat} {x y : Sess} {o
     by_cases e : k = x.serial
     · rw [e]; exact hW.ser sid x hx
     · rw [hother k e] at h; exact hW.bnd k a h
-  have hW' := W_update hW hx s1 hs hc hnx hnda hother hbnd hid hser hip (inv_of_step hW hstep)
+  have hW' := W_update hW hx s1 hs hc hnx hnda hother hbnd hid hser hip (hperm.symm.nodup hW.pnd) (inv_of_step hW hstep)
   have look : ∀ k z, lookup (setSess s1 sid y).sessions k = some z →
       (k = sid ∧ z = y) ∨ (k ≠ sid ∧ lookup s.sessions k = some z) := by
     intro k z h
@@ -712,13 +766,13 @@ theorem step_ok {s : Srv} {mn : Mon} (hW : W s) (hR : Rel s mn) (i : In) : StepO
           · rename_i e
             exact Or.inr ⟨e, h⟩
         have hW' : W (padrState s id nx x0) := by
-          refine ⟨nodupKeys_insert hW.nd id x0, ?_, inv_of_step hW hstep, hW.nda, ?_, ?_, ?_, ?_, hnx⟩
+          refine ⟨nodupKeys_insert hW.nd id x0, ?_, inv_of_step hW hstep, hW.nda, ?_, hW.pnd, ?_, ?_, ?_, hnx⟩
           · intro k z h
             rcases look k z h with ⟨rfl, rfl⟩ | ⟨_, h'⟩
             · exact e1
             · exact hW.idk k z h'
           · intro k z h
-            show z.ip.isSome = (lookup s.alloc z.serial).isSome
+            show z.ip = lookup s.alloc z.serial
             rcases look k z h with ⟨rfl, rfl⟩ | ⟨_, h'⟩
             · rw [e3, e4]
               cases hl : lookup s.alloc s.serialCtr with
@@ -776,7 +830,7 @@ theorem step_ok {s : Srv} {mn : Mon} (hW : W s) (hR : Rel s mn) (i : In) : StepO
   | sweep =>
     have hstep : step s .sweep = ({ s with sessions := [] }, []) := rfl
     have hW' : W { s with sessions := [] } := by
-      refine ⟨nodupKeys_nil, ?_, inv_of_step hW hstep, hW.nda, ?_, ?_, ?_, hW.bnd, hW.nx⟩
+      refine ⟨nodupKeys_nil, ?_, inv_of_step hW hstep, hW.nda, ?_, hW.pnd, ?_, ?_, hW.bnd, hW.nx⟩
       · intro k z h; simp [lookup] at h
       · intro k z h; simp [lookup] at h
       · intro k z h; simp [lookup] at h
@@ -800,8 +854,8 @@ theorem step_ok {s : Srv} {mn : Mon} (hW : W s) (hR : Rel s mn) (i : In) : StepO
     | none => exact same [] (by simp only [step, hg]) rfl (by simp) (by simp)
     | some x =>
       obtain ⟨hx, _⟩ := Spec.C04.ownerGate_some hg
-      obtain ⟨f1, f2, f3, f4, f5, f6, f7, f8⟩ := release_facts s hW.nda x.serial
-      exact remove_core hW hR hx (outs := []) (by simp only [step, hg]) f1 f2 f3 f4 f5 f6 f7 f8 rfl (by simp)
+      obtain ⟨f1, f2, f3, f4, f5, f6, f7, f8, f9⟩ := release_facts s hW.nda x.serial
+      exact remove_core hW hR hx (outs := []) (by simp only [step, hg]) f1 f2 f3 f4 f5 f6 f7 f8 f9 rfl (by simp)
   | lcp m sid k =>
     cases hg : ownerGate s m sid with
     | none => exact same [] (by simp only [step, hg]) rfl (by simp) (by simp)
@@ -812,13 +866,13 @@ theorem step_ok {s : Srv} {mn : Mon} (hW : W s) (hR : Rel s mn) (i : In) : StepO
       | cnak => exact same [.lcpreq sid x.mac] (by simp only [step, hg]) rfl (by simp [toSent, plainSent]) (by simp [toSent, plainSent])
       | echo => exact same [.lcperep sid x.mac] (by simp only [step, hg]) rfl (by simp [toSent, plainSent]) (by simp [toSent, plainSent])
       | term =>
-        obtain ⟨f1, f2, f3, f4, f5, f6, f7, f8⟩ := release_facts s hW.nda x.serial
-        exact remove_core hW hR hx (outs := [.lcptack sid x.mac]) (by simp only [step, hg]) f1 f2 f3 f4 f5 f6 f7 f8 rfl
+        obtain ⟨f1, f2, f3, f4, f5, f6, f7, f8, f9⟩ := release_facts s hW.nda x.serial
+        exact remove_core hW hR hx (outs := [.lcptack sid x.mac]) (by simp only [step, hg]) f1 f2 f3 f4 f5 f6 f7 f8 f9 rfl
           (by simp [toSent, plainSent])
       | cack =>
         have hnp : ∀ t ∈ ([] : List Out).filterMap toSent, t.pads = false ∧ t.ipcpAns = false := by simp
         refine update_core hW hR hx (s1 := s) (y := { x with state := .auth }) (outs := [])
-          (by simp only [step, hg]) rfl rfl rfl rfl hW.nda (fun _ _ => rfl) rfl rfl rfl rfl rfl
+          (by simp only [step, hg]) rfl rfl rfl rfl hW.nda (fun _ _ => rfl) rfl rfl (List.Perm.refl _) rfl rfl rfl
           (hW.ipa sid x hx) ?_ rfl hnp
         intro he
         apply auth0_sub_auth1
@@ -845,7 +899,7 @@ theorem step_ok {s : Srv} {mn : Mon} (hW : W s) (hR : Rel s mn) (i : In) : StepO
         | cack =>
           have hnp : ∀ t ∈ ([] : List Out).filterMap toSent, t.pads = false ∧ t.ipcpAns = false := by simp
           refine update_core hW hR hx (s1 := s) (y := { x with state := .est }) (outs := [])
-            (by simp only [step, hg, hau]; rfl) rfl rfl rfl rfl hW.nda (fun _ _ => rfl) rfl rfl rfl rfl rfl
+            (by simp only [step, hg, hau]; rfl) rfl rfl rfl rfl hW.nda (fun _ _ => rfl) rfl rfl (List.Perm.refl _) rfl rfl rfl
             (hW.ipa sid x hx) ?_ rfl hnp
           intro he
           apply auth0_sub_auth1
@@ -859,7 +913,7 @@ theorem step_ok {s : Srv} {mn : Mon} (hW : W s) (hR : Rel s mn) (i : In) : StepO
     | some x =>
       obtain ⟨hx, hm⟩ := Spec.C04.ownerGate_some hg
       by_cases hok : papOk s pw r = true
-      · obtain ⟨f1, f2, f3, f4, f5, f6, f7, f8, f9⟩ := allocate_facts s hW.nda x.serial
+      · obtain ⟨f1, f2, f3, f4, f5, f6, f7, f8, f9, f10⟩ := allocate_facts s hW.nda x.serial
         have hstep : step s (.pap m sid pw r) =
             (setSess (poolAllocate s x.serial).1 sid
                { x with authed := true, state := .ipcp, ip := (poolAllocate s x.serial).2, everAuthed := true },
@@ -869,7 +923,7 @@ theorem step_ok {s : Srv} {mn : Mon} (hW : W s) (hR : Rel s mn) (i : In) : StepO
         have hnp : ∀ t ∈ (if (poolAllocate s x.serial).2.isSome then [Out.papack sid x.mac, .ipcpreq sid x.mac]
              else [.papack sid x.mac]).filterMap toSent, t.pads = false ∧ t.ipcpAns = false := by
           split <;> simp [toSent, plainSent]
-        refine update_core hW hR hx hstep f1 f2 f3 f4 f5 f7 f8 ?_ rfl rfl rfl f6 ?_ rfl hnp
+        refine update_core hW hR hx hstep f1 f2 f3 f4 f5 f7 f8 ?_ f10 rfl rfl rfl f6 ?_ rfl hnp
         · rw [hW.ipa sid x hx]; exact f9
         · intro _
           -- the monitor, from its own records, also accepts this PAP exchange
@@ -902,17 +956,20 @@ theorem step_ok {s : Srv} {mn : Mon} (hW : W s) (hR : Rel s mn) (i : In) : StepO
           · rw [if_pos hc]; rw [List.contains_iff_mem] at hc; exact hc
           · rw [if_neg hc]; exact List.mem_cons_self
       · have hok' : papOk s pw r = false := by simpa using hok
-        obtain ⟨f1, f2, f3, f4, f5, f6, f7, f8⟩ := release_facts s hW.nda x.serial
-        exact remove_core hW hR hx (outs := [.papnak sid x.mac]) (by simp [step, hg, hok']) f1 f2 f3 f4 f5 f6 f7 f8 rfl
+        obtain ⟨f1, f2, f3, f4, f5, f6, f7, f8, f9⟩ := release_facts s hW.nda x.serial
+        exact remove_core hW hR hx (outs := [.papnak sid x.mac]) (by simp [step, hg, hok']) f1 f2 f3 f4 f5 f6 f7 f8 f9 rfl
           (by simp [toSent, plainSent])
 
 
 /-! ### every history -/
 
 theorem W_init (r : Bool) (b : Nat) : W (init r b) := by
-  refine ⟨nodupKeys_nil, ?_, Spec.C04.inv_init r b, nodupKeys_nil, ?_, ?_, ?_, ?_, by simp [init]⟩
+  refine ⟨nodupKeys_nil, ?_, Spec.C04.inv_init r b, nodupKeys_nil, ?_, ?_, ?_, ?_, ?_, by simp [init]⟩
   · intro k z h; simp [init, lookup] at h
   · intro k z h; simp [init, lookup] at h
+  · show (poolAddrs b ++ vals []).Nodup
+    simp only [vals, List.map_nil, List.append_nil, poolAddrs]
+    exact List.nodup_range.sublist List.filter_sublist
   · intro k z h; simp [init, lookup] at h
   · intro k k' z z' h; simp [init, lookup] at h
   · intro k a h; simp [init, lookup] at h
